@@ -1,4 +1,5 @@
-CONSTANTS DS = 16  DE = 24  Mut = "LeaveTemp"
+\* seeded fault "LeaveTemp" of the migration model: TLC must report a violation of FailureClean
+CONSTANTS DS = 16  DE = 24  Mut = "LeaveTemp"  MaxFill = 1
 SPECIFICATION Spec
-INVARIANTS MigrationFaithful NonDestructive FailureClean AmbiguityRule MigrateTotal
+INVARIANTS FailureClean
 CHECK_DEADLOCK FALSE
